@@ -560,7 +560,6 @@ func idiomAwaitedOpen(j *CtxJudge, r *Resolver, s BSite, cone *Cone) (bool, stri
 	return true, "idiom (e): open runs in a spawned goroutine that signals on a channel; its starter awaits it at " + r.P.InstrPos(okSel) + " with " + why
 }
 
-
 // closedOnCancelAt: in function fn (resolver r) the reader value rd is
 // bufio.NewReader(file), and a goroutine started in fn before instruction at
 // closes that file when the worker context is cancelled.
@@ -931,7 +930,6 @@ func lockHoldersDoNotBlock(c *Check) {
 		c.OK("lock-holders-do-not-block", "tracker and health critical sections", "-", fmt.Sprintf("%d lock acquisitions walked, no blocking operation under any lock, lock order acyclic", acq))
 	}
 }
-
 
 // fdCalledOnCell: does any use of the file variable (also through
 // repository helpers it is passed to) call (*os.File).Fd?
